@@ -4,6 +4,7 @@ package c02
 import (
 	"fmt"
 	"strings"
+	"sync"
 
 	"verifharness/internal/ga"
 	"verifharness/internal/hx"
@@ -25,10 +26,36 @@ func Run(cfg hx.Config) (*hx.Meta, error) {
 			}
 		},
 	}
+	// the shapes of the hardening rounds are packages of their own: they are generated, built and run while
+	// the catalogue's shapes are probed
+	extra := &hx.Meta{}
+	done := make(chan error, 1)
+	go func() { done <- extras(cfg, vr, extra) }()
 	meta, err := vr.Run(cfg)
+	if e := <-done; err == nil {
+		err = e
+	}
 	if err != nil {
 		return nil, err
 	}
+	merge(meta, extra)
+	return meta, nil
+}
+
+func merge(meta, m *hx.Meta) {
+	meta.ObsFiles = append(meta.ObsFiles, m.ObsFiles...)
+	meta.Packages += m.Packages
+	meta.GoderiveRuns += m.GoderiveRuns
+	meta.Direct = append(meta.Direct, m.Direct...)
+	meta.Notes = append(meta.Notes, m.Notes...)
+	for k, n := range m.Distribution {
+		for ; n > 0; n-- {
+			meta.Count(k)
+		}
+	}
+}
+
+func extras(cfg hx.Config, vr *ga.ValueRun, meta *hx.Meta) error {
 	// hardening round 4: components that declare their own Equal method — with a value, a pointer and an
 	// interface parameter — held by value and by pointer in every kind of container; every pair of pool
 	// values, so that each single nil-ness mutation of such a pointer meets its non-nil twin
@@ -40,7 +67,85 @@ func Run(cfg hx.Config) (*hx.Meta, error) {
 	}
 	x := &ga.ExtraRun{VR: vr, Name: "methods", Types: cat.MethodShapesHB(), PoolMax: pool, Probe: cfg.Tier == "thorough"}
 	if err := x.Run(cfg, meta); err != nil {
-		return nil, err
+		return err
 	}
-	return meta, nil
+	return round5(cfg, vr, cat, meta)
+}
+
+// round5 (hardening round 5): declarations the type grammar cannot spell — embedded fields (promoted and
+// hidden names), struct tags — and Equal methods whose parameter is a named interface or a non-empty
+// interface literal.  Besides all pairs of a small pool every type is run on (origin, mutation) pairs for
+// EVERY single-leaf and single-nil-ness mutation of a rich value and of the zero value.  The groups are
+// independent packages and run side by side.
+func round5(cfg hx.Config, vr *ga.ValueRun, cat *ga.Catalogue, meta *hx.Meta) error {
+	maxMut := 24
+	if cfg.Tier == "thorough" {
+		maxMut = 60
+	}
+	var bounds sync.Map // *ga.Type -> []int: where the catalogue pool ends and where each mutation group ends
+	poolFn := func(g *ga.Gen, t *ga.Type) []*ga.Val {
+		vals := g.Pool(t, map[int]*ga.Type{}, 3)
+		ends := []int{len(vals)}
+		for _, grp := range g.MutationGroupsR5(t, maxMut) {
+			vals = append(vals, grp...)
+			ends = append(ends, len(vals))
+		}
+		bounds.Store(t, ends)
+		return vals
+	}
+	cases := func(idx int, t *ga.Type, vals []*ga.Val, r *hx.Rand, out *strings.Builder) {
+		e, _ := bounds.Load(t)
+		ends := e.([]int)
+		vr.Cases(idx, t, vals[:ends[0]], r, out)
+		for k := 0; k+1 < len(ends); k++ {
+			grp := vals[ends[k]:ends[k+1]]
+			o := grp[0].Sexp()
+			fmt.Fprintf(out, "eq %d %s %s\neqc %d %s %s\n", idx, o, o, idx, o, o)
+			for _, m := range grp[1:] {
+				ms := m.Sexp()
+				fmt.Fprintf(out, "eq %d %s %s\neq %d %s %s\neqc %d %s %s\neq %d %s %s\n", idx, o, ms, idx, ms, o, idx, o, ms, idx, ms, ms)
+			}
+		}
+	}
+	emb, embx, amb := cat.EmbeddedShapesR5()
+	tag, tagx := cat.TagShapesR5()
+	groups := []struct {
+		name  string
+		types []*ga.Type
+	}{
+		{"emb", emb},
+		{"tag", tag},
+		{"embtagx", append(embx, tagx...)},
+		{"ifmeth", cat.NamedIfaceMethodShapesR5()},
+		{"embamb", amb},
+	}
+	if cfg.Tier != "thorough" {
+		// where a promoted selector cannot even be written a wrong generator is seen by the compiler; the
+		// quick tier keeps to the shapes on which it would be seen by a wrong answer
+		groups = groups[:4]
+	}
+	metas := make([]*hx.Meta, len(groups))
+	errs := make([]error, len(groups))
+	var wg sync.WaitGroup
+	for i := range groups {
+		wg.Add(1)
+		go func(i int) {
+			defer wg.Done()
+			v := *vr
+			v.Cases = cases
+			v.Extra = ga.DeclFilesR5(groups[i].types)
+			metas[i] = &hx.Meta{}
+			// not probed one by one: a probe package is written without the declaration files above
+			x := &ga.ExtraRun{VR: &v, Name: groups[i].name, Types: groups[i].types, Pool: poolFn, PoolMax: 8}
+			errs[i] = x.Run(cfg, metas[i])
+		}(i)
+	}
+	wg.Wait()
+	for i, m := range metas {
+		if errs[i] != nil {
+			return errs[i]
+		}
+		merge(meta, m)
+	}
+	return nil
 }
